@@ -35,7 +35,8 @@ const TS: [&str; 6] = [IMPLICIT, EXPLICIT, IMPLICIT_NUL, DEFLATED, J2K, UNKNOWN_
 const TS_NAMES: [&str; 6] = ["I", "E", "I0", "D", "J", "U"];
 
 const STD_APP: &str = "1.2.840.10008.3.1.1.1";
-const THIS_AE: &str = "THIS-SCP";
+// deliberately not the library default ("THIS-SCP"), so that a reset of the AE title is observable
+const THIS_AE: &str = "VX-SCP";
 const ACCEPTOR_MAX: u32 = 20_000;
 
 /// acceptor transfer syntax configurations
@@ -564,6 +565,164 @@ fn run_wire(l: &mut Local, c: &Case) {
 }
 
 // ------------------------------------------------------------------------------------------------
+// order of builder calls
+
+#[derive(Clone, Copy, PartialEq, Eq, Debug)]
+enum Step {
+    Promiscuous,
+    Strict,
+    MaxPdu,
+    Abstract,
+    Transfer,
+    AeTitle,
+    Access,
+}
+const STEPS: [Step; 7] = [Step::Promiscuous, Step::Strict, Step::MaxPdu, Step::Abstract, Step::Transfer, Step::AeTitle, Step::Access];
+
+fn permutations(n: usize) -> Vec<Vec<usize>> {
+    fn rec(cur: &mut Vec<usize>, used: &mut Vec<bool>, out: &mut Vec<Vec<usize>>) {
+        if cur.len() == used.len() {
+            out.push(cur.clone());
+            return;
+        }
+        for i in 0..used.len() {
+            if !used[i] {
+                used[i] = true;
+                cur.push(i);
+                rec(cur, used, out);
+                cur.pop();
+                used[i] = false;
+            }
+        }
+    }
+    let mut out = vec![];
+    rec(&mut vec![], &mut vec![false; n], &mut out);
+    out
+}
+
+/// the acceptor of the order family reads with a small maximum and `strict(false)`
+const ORDER_MAX: u32 = 1018;
+
+fn apply<'a, AC: AccessControl, N: Negotiation>(o: ServerAssociationOptions<'a, AC, N>, step: Step, c: &Case, max: u32) -> ServerAssociationOptions<'a, AC, N> {
+    match step {
+        Step::Promiscuous => o.promiscuous(c.promiscuous),
+        Step::Strict => o.strict(false),
+        Step::MaxPdu => o.max_pdu_length(max),
+        Step::Abstract => {
+            let mut o = o;
+            if c.abs_cfg & 1 != 0 {
+                o = o.with_abstract_syntax(A);
+            }
+            if c.abs_cfg & 2 != 0 {
+                o = o.with_abstract_syntax(B);
+            }
+            o
+        }
+        Step::Transfer => {
+            let mut o = o;
+            for t in TS_CFGS[c.ts_cfg] {
+                o = o.with_transfer_syntax(*t);
+            }
+            o
+        }
+        Step::AeTitle => o.ae_title(THIS_AE),
+        Step::Access => unreachable!(),
+    }
+}
+
+/// what one ordering of the builder calls yields: the accessor's answer (acceptor maximum
+/// ACCEPTOR_MAX) and, with maximum ORDER_MAX and strict(false), the outcome of establishing over a
+/// scripted socket with a request whose PDU length exceeds ORDER_MAX (must be read: strict is off)
+fn ordered(c: &Case, order: &[usize], long_rq: &[u8]) -> (Reply, Result<usize, String>) {
+    let pos = order.iter().position(|&i| STEPS[i] == Step::Access).unwrap();
+    macro_rules! finish {
+        ($max:expr, $go:expr) => {{
+            let mut o = ServerAssociationOptions::new();
+            for &i in &order[..pos] {
+                o = apply(o, STEPS[i], c, $max);
+            }
+            if c.access == 0 {
+                let mut o = o.accept_any();
+                for &i in &order[pos + 1..] {
+                    o = apply(o, STEPS[i], c, $max);
+                }
+                $go(&o)
+            } else {
+                let mut o = o.accept_called_ae_title();
+                for &i in &order[pos + 1..] {
+                    o = apply(o, STEPS[i], c, $max);
+                }
+                $go(&o)
+            }
+        }};
+    }
+    let reply: Reply = finish!(ACCEPTOR_MAX, |o: &ServerAssociationOptions<_, _>| o.verif_process_rq(c.request()));
+    let est = finish!(ORDER_MAX, |o: &ServerAssociationOptions<_, _>| {
+        let (tr, _r) = ScriptRead::segmented(long_rq.to_vec(), &[long_rq.len()]);
+        let (tw, _w) = ScriptWrite::new(Decide::Default);
+        match o.verif_establish_over(SyncSock::new(tr, tw)) {
+            Ok(a) => Ok(a.presentation_contexts().len()),
+            Err(e) => Err(err_class(&e)),
+        }
+    });
+    (reply, est)
+}
+
+fn run_order(l: &mut Local, c: &Case, cfg_name: &str, perms: &[Vec<usize>]) {
+    let want = reference(c);
+    // the same request made longer than ORDER_MAX by an opaque user item
+    let long_rq = {
+        let mut r = c.request_ref();
+        if let rp::RPdu::AssociateRq { head, .. } = &mut r {
+            head.user_info.as_mut().unwrap().push(rp::RUserItem::Unknown { item_type: 0x5A, data: vec![0; 1100] });
+        }
+        rp::encode(&r).unwrap()
+    };
+    let must_establish = matches!(want, Expect::Accept(..)) && (c.abs_cfg != 0 || c.promiscuous);
+    for (pi, order) in perms.iter().enumerate() {
+        let case_id = format!("order/{cfg_name}/{}", order.iter().map(|i| i.to_string()).collect::<String>());
+        if !l.want(&case_id) {
+            continue;
+        }
+        l.eval();
+        l.nontrivial(&case_id);
+        let names: Vec<String> = order.iter().map(|&i| format!("{:?}", STEPS[i])).collect();
+        let pos = order.iter().position(|&i| STEPS[i] == Step::Access).unwrap();
+        let before: Vec<&str> = order[..pos].iter().map(|&i| ["promiscuous", "strict", "max_pdu_length", "abstract", "transfer", "ae_title", "access"][i]).collect();
+        let class = |effect: &str| {
+            let mut v = c.class("builder-order", effect);
+            v["access_call_position"] = json!(pos);
+            v
+        };
+        let detail = |m: String| json!({"builder_calls": names, "set_before_access_control_call": before, "request": c.request_ref().summary(), "reference": format!("{want:?}"), "message": m});
+        let _ = pi;
+        match guard(|| ordered(c, order, &long_rq)) {
+            Err(p) => {
+                l.outcome("order-panic");
+                l.fail(&case_id, class("panic"), detail(p));
+            }
+            Ok((reply, est)) => match judge(c, &reply, &want) {
+                Err((effect, m)) => {
+                    l.outcome("order-changes-negotiation");
+                    l.fail(&case_id, class(effect), detail(m));
+                }
+                Ok(_) => match (&est, must_establish) {
+                    (Ok(_), true) | (Err(_), false) => l.outcome_with(if must_establish { "order-independent-accept" } else { "order-independent-refuse" }, || json!({"case": case_id, "builder_calls": names})),
+                    (Err(e), true) => {
+                        l.outcome("order-changes-strict-or-max");
+                        l.fail(&case_id, class("establish-fails-with-long-request"), detail(format!("strict(false) and max_pdu_length({ORDER_MAX}) were set, a request of PDU length {} must be read; establish failed: {e}", long_rq.len() - 6)));
+                    }
+                    (Ok(n), false) => {
+                        l.outcome("order-establishes-unexpectedly");
+                        l.fail(&case_id, class("established-but-must-refuse"), detail(format!("established with {n} contexts")));
+                    }
+                },
+            },
+        }
+    }
+}
+
+// ------------------------------------------------------------------------------------------------
 
 fn rep_contexts(thorough: bool) -> Vec<Ctx> {
     // (abstract index, transfer syntax indices): I=0 E=1 I0=2 D=3 J=4 U=5
@@ -605,7 +764,7 @@ fn main() {
         vx_kit::report::machinery("C28 precondition: Deflated must be registered-but-unsupported (registry built without `deflate`), JPEG 2000 registered, 1.9.9 unknown");
     }
     let thorough = check.thorough();
-    check.set_rule("acceptor: abstract syntaxes subset of {A,B} x transfer syntaxes {none,[E],[I,E],[D],[D,E],[E,D],[1.9.9,I],[D,1.9.9]} (configured-but-unsupported/unknown UIDs mixed with supported ones) x promiscuous; request contexts (abstract in {A,B,C,A+NUL}) x (ordered list of 0-2 of {Implicit, Explicit, Implicit+NUL, Deflated (registered, unsupported), JPEG 2000 (stub, data set decodable), 1.9.9 (unknown)}): every single-context request (thorough: also every ordered list of 3 transfer syntaxes) x 5 id patterns; every 2- and 3-context request over 8 representative contexts (thorough: every 2-context request over all 172 contexts, 3-context over 20, 4-context over 8) x 5 id patterns (odd, 255 first, duplicated, descending, even/zero); header cross: protocol version {1,2,3} x application context {standard, other} x access control {any, called-title match, mismatch} x Maximum Length {absent,0,1,1018,2^32-1} over 4 requests x 6 acceptors. A case is (acceptor configuration, request); non-trivial = the acceptor answered and the answer was judged. Wire paths: every 97th case (and all header-cross cases with one context) through establish / establish_async over loopback TCP and the two hook twins");
+    check.set_rule("acceptor: abstract syntaxes subset of {A,B} x transfer syntaxes {none,[E],[I,E],[D],[D,E],[E,D],[1.9.9,I],[D,1.9.9]} (configured-but-unsupported/unknown UIDs mixed with supported ones) x promiscuous; request contexts (abstract in {A,B,C,A+NUL}) x (ordered list of 0-2 of {Implicit, Explicit, Implicit+NUL, Deflated (registered, unsupported), JPEG 2000 (stub, data set decodable), 1.9.9 (unknown)}): every single-context request (thorough: also every ordered list of 3 transfer syntaxes) x 5 id patterns; every 2- and 3-context request over 8 representative contexts (thorough: every 2-context request over all 172 contexts, 3-context over 20, 4-context over 8) x 5 id patterns (odd, 255 first, duplicated, descending, even/zero); header cross: protocol version {1,2,3} x application context {standard, other} x access control {any, called-title match, mismatch} x Maximum Length {absent,0,1,1018,2^32-1} over 4 requests x 6 acceptors. Order of builder calls: for 18 acceptor configurations, all 5040 orders of the calls {promiscuous, strict(false), max_pdu_length, with_abstract_syntax.., with_transfer_syntax.., ae_title, accept_any/accept_called_ae_title}: the accessor's answer must equal the reference negotiation and a request longer than max_pdu_length must still be read (strict off) by the sync hook twin. A case is (acceptor configuration, request); non-trivial = the acceptor answered and the answer was judged. Wire paths: every 97th case (and all header-cross cases with one context) through establish / establish_async over loopback TCP and the two hook twins");
     check.assume("registry predicate `get(uid)` exists and not `is_unsupported()` is read from the registry's public API (the negotiation logic, not the registry, is the subject)");
     check.assume("UID equality is modulo trailing NUL padding; a rejected context's transfer syntax field is not significant");
     check.assume("for protocol version mismatch both PS3.8's protocol-version-not-supported and no-reason-given are accepted (the statement leaves the choice)");
@@ -692,6 +851,29 @@ fn main() {
     cases.extend(header_cases.iter().cloned());
     check.extra("universe", json!({"body": body, "header_cross": header_cases.len(), "contexts": all_ctx.len(), "single_contexts": single_ctx.len(), "acceptor_ts_configurations": TS_CFGS.len()}));
     check.par_range(cases.len() as u64, |l, i| run_accessor(l, &cases[i as usize]));
+
+    // order of builder calls: every permutation of the 7 setter groups
+    let perms = permutations(STEPS.len());
+    let mut order_cfgs: Vec<(String, Case)> = vec![];
+    for (abs_cfg, ts_cfg, promiscuous, rq) in [(1u8, 4usize, true, vec![0usize, 3, 2]), (3, 2, false, vec![1, 3]), (2, 6, true, vec![4, 6])] {
+        for access in 0..3u8 {
+            for maxlen in [0usize, 3] {
+                let c = Case { abs_cfg, ts_cfg, promiscuous, ctxs: rq.iter().map(|&i| reps8[i].clone()).collect(), ids: 0, version: 1, app_other: false, access, maxlen };
+                order_cfgs.push((format!("abs{abs_cfg}-ts{}-p{}-acc{access}-max{maxlen}", TS_CFG_NAMES[ts_cfg], promiscuous as u8), c));
+            }
+        }
+    }
+    check.extra("builder_order", json!({"configurations": order_cfgs.len(), "permutations": perms.len()}));
+    // shard: (configuration, block of permutations)
+    let blocks = 16usize;
+    check.par_range((order_cfgs.len() * blocks) as u64, |l, i| {
+        let (name, c) = &order_cfgs[i as usize / blocks];
+        let b = i as usize % blocks;
+        let per = perms.len().div_ceil(blocks);
+        let lo = (b * per).min(perms.len());
+        let hi = ((b + 1) * per).min(perms.len());
+        run_order(l, c, name, &perms[lo..hi]);
+    });
 
     // wire subset
     let mut wire: Vec<&Case> = cases[..body].iter().step_by(if thorough { 97 } else { 389 }).collect();
